@@ -107,7 +107,8 @@ def reader_signature(prog, F):
                 t = u.kids[0].strip()
                 if t.k == "ArraySubscriptExpr" and t.kids[0].strip(casts=True).k == "MemberExpr" and \
                         t.kids[0].strip(casts=True).d.get("field") == "letter_freq":
-                    hist.append(t.kids[1].strip(casts=True).text() == chartext)
+                    # counted for every character of the line: on the same character, and not inside one branch of the chain
+                    hist.append(t.kids[1].strip(casts=True).text() == chartext and not u.within(n))
         sig.append((tuple(entry), tuple(hist)))
         where = n
     return sig, where
